@@ -136,6 +136,12 @@ class View:
         """current assertion set of a solver value"""
         return self._st.obj(v.ref)["A"]
 
+    def I(self, v):
+        """integer constraints asserted on a solver value (list term)"""
+        from . import iterm as IT
+
+        return self._st.obj(v.ref).get("I", IT.LIForm.nil)
+
     def depth(self, v):
         return len(self._st.obj(v.ref)["pushed"])
 
@@ -316,6 +322,7 @@ class Executor:
         self.src_segment = ast.get_source_segment(mod.src, self.fn)
         self.src_hash = hashlib.sha256(self.src_segment.encode()).hexdigest()[:16]
         self.cls = fname.split(".")[0] if "." in fname else None
+        self._ints_stack: list = []
 
     # ---- loops are numbered in source order; effectful comprehension statements count
     def _number_loops(self):
@@ -403,6 +410,8 @@ class Executor:
             for k, g in enumerate(goal):
                 self.oblige(f"{kind}.{k}", node, g, note)
             return
+        if isinstance(goal, L.Forall) and getattr(goal, "assume_only", False):
+            return  # the same fact as another clause of the contract, stated with a different trigger
         if not isinstance(goal, L.Forall):
             s = z3.simplify(goal)
             if z3.is_true(s):
@@ -447,6 +456,9 @@ class Executor:
         if ct.returns is not None and not isinstance(result, VNone):
             result = self.coerce(result, ct.returns, "return")
         v = View(self, st, old=self.entry_view)
+        if getattr(ct, "ghost_out", None):
+            # ghost outputs: the contract names the witnesses (existential introduction)
+            v.ghost = ct.ghost_wit(v, result)
         self.cover("return", self.fn)
         hints = ct.hints(v, result) if getattr(ct, "hints", None) else []
         self.st.assume(hints)
@@ -746,12 +758,24 @@ class Executor:
             orelse = []
         elif isinstance(node, ast.Expr):
             comp = node.value
-            if len(comp.generators) != 1 or comp.generators[0].is_async:
-                raise Unsupported("nested effectful comprehension")
+            if any(g.is_async for g in comp.generators):
+                raise Unsupported("async comprehension")
             gen = comp.generators[0]
             target, iter_node = gen.target, gen.iter
-            body = [ast.Expr(value=comp.elt)]
-            ast.copy_location(body[0], node)
+            if len(comp.generators) > 1:
+                # [e for x in xs (if c) for y in ys ...]: the remaining generators form an inner
+                # effectful comprehension, loop "<k>.1" of the contract
+                inner = getattr(node, "_inner", None)
+                if inner is None:
+                    inner = ast.Expr(value=ast.ListComp(elt=comp.elt, generators=comp.generators[1:]))
+                    ast.copy_location(inner, node)
+                    ast.fix_missing_locations(inner)
+                    node._inner = inner
+                self.loop_nodes[id(inner)] = f"{k}.1"
+                body = [inner]
+            else:
+                body = [ast.Expr(value=comp.elt)]
+                ast.copy_location(body[0], node)
             for cond in reversed(gen.ifs):
                 body = [ast.If(test=cond, body=body, orelse=[])]
                 ast.copy_location(body[0], node)
@@ -786,6 +810,13 @@ class Executor:
             raise Unsupported(f"shape mismatch: loop #{k} is '{head}', contract expects '{spec.head}'")
         pre_state = st.snapshot()
         pre_view = View(self, pre_state)
+        self._ints_stack.append(bool(getattr(spec, "ints", False)))
+        try:
+            return self._exec_loop_cut(node, k, spec, st, is_for, seq, target if is_for else None, body, pre_view)
+        finally:
+            self._ints_stack.pop()
+
+    def _exec_loop_cut(self, node, k, spec, st, is_for, seq, target, body, pre_view):
         mods, heap_mods = self.mod_set(body, target if is_for else None)
         j0 = VInt(0) if is_for else None
         # 1. invariant holds on entry
@@ -873,6 +904,11 @@ class Executor:
             return
         if o["kind"] == "solver":
             self.st.update(ref, A=self.st.fresh_const("A", L.WSet))
+            if self._ints_stack and self._ints_stack[-1]:
+                # only a loop whose LoopSpec says ints=True may assert integer constraints
+                from . import iterm as IT
+
+                self.st.update(ref, I=self.st.fresh_const("I", IT.LIForm.sort))
         else:
             raise Unsupported("loop modifies a record/object; not supported yet")
 
@@ -911,6 +947,21 @@ class Executor:
                 elif isinstance(t, (ast.Tuple, ast.List)):
                     for e in t.elts:
                         s.tgt(e)
+                elif (
+                    isinstance(t, ast.Subscript)
+                    and isinstance(t.value, ast.Subscript)
+                    and isinstance(t.value.slice, ast.Constant)
+                    and isinstance(t.value.slice.value, str)
+                ):
+                    # rec["field"][k] = v : the container held in that record field changes
+                    try:
+                        o = ex.eval(t.value.value)
+                    except Exception:
+                        o = None
+                    if isinstance(o, VRef) and ex.st.obj(o.ref)["kind"] == "rec":
+                        heap.add(("field", o.ref, t.value.slice.value))
+                    else:
+                        raise Unsupported("loop body stores through an unsupported path")
                 elif isinstance(t, (ast.Subscript, ast.Attribute)):
                     root = t
                     while isinstance(root, (ast.Subscript, ast.Attribute)):
@@ -1052,6 +1103,10 @@ class Executor:
     def expr_List(self, node):
         if node.elts:
             vs = [self.eval(e) for e in node.elts]
+            if any(isinstance(v, (VDict, VRef, VTuple)) for v in vs):
+                r = VOpaque("list literal of objects")  # only iterated (unrolled) or indexed by a literal
+                r.concrete = vs
+                return r
             et = vs[0].ty
             t = et.list_theory().nil
             for v in vs:
@@ -1063,15 +1118,49 @@ class Executor:
 
     def expr_Dict(self, node):
         if node.keys:
-            raise Unsupported("non-empty dict literal")
+            if any(k is None for k in node.keys):
+                raise Unsupported("dict literal with ** unpacking")
+            ks = [self.eval(k) for k in node.keys]
+            vs = [self.eval(v) for v in node.values]
+            if not all(isinstance(k, VInt) for k in ks) or any(not hasattr(v, "t") for v in vs):
+                raise Unsupported("dict literal of this shape")
+            if len(ks) > 1:
+                self.st.assume(z3.Distinct(*[k.t for k in ks])) if all(z3.is_int_value(z3.simplify(k.t)) for k in ks) else None
+                if not all(z3.is_int_value(z3.simplify(k.t)) for k in ks):
+                    raise Unsupported("dict literal with several symbolic keys")
+            et = vs[0].ty
+            keys = L.LInt.nil
+            val = self.st.fresh_const("dictlit", z3.ArraySort(L.Int, et.sort()))
+            for k, v in zip(ks, vs):
+                if v.t.sort() != et.sort():
+                    raise Unsupported("dict literal with values of different types")
+                keys = L.LInt.snoc(keys, k.t)
+                self.st.assume(z3.Select(val, k.t) == v.t)  # (an equation the matcher can use, unlike a Store term)
+            return VDict(keys, val, et, TInt)
         return VEmptyDict()
 
     def expr_JoinedStr(self, node):
-        # f-strings are only used for names/messages: an opaque string
+        """an f-string whose placeholders are plain `{int}` / `{str}` values denotes
+        fstr<template>(values): the same template and values give the same string (TB-py);
+        any other f-string (messages) is an opaque string"""
+        from . import iterm as IT
+
+        parts, vals, plain = [], [], True
         for v in node.values:
             if isinstance(v, ast.FormattedValue):
-                self.eval(v.value)
-        return VStr(self.st.fresh_const("fstr", StrSort))
+                x = self.eval(v.value)
+                if v.conversion != -1 or v.format_spec is not None or not isinstance(x, (VInt, VStr)):
+                    plain = False
+                else:
+                    vals.append(x.t)
+                parts.append("{}")
+            else:
+                parts.append(str(v.value).replace("{", "{{").replace("}", "}}"))
+        if not plain:
+            return VStr(self.st.fresh_const("fstr", StrSort))
+        if not vals:
+            return VStr(const="".join(p for p in parts))
+        return VStr(IT.fstr_fun("".join(parts), [t.sort() for t in vals])(*vals))
 
     def expr_Attribute(self, node):
         # module attribute such as z3.And / pathlib.Path
@@ -1110,6 +1199,8 @@ class Executor:
                 return VCallable(f"method:Solver.{attr}", bound=o)
             if rec["kind"] == "rec":
                 return VCallable(f"method:rec.{attr}", bound=o)
+        if isinstance(o, VITerm):
+            return VCallable(f"method:ITerm.{attr}", bound=o)
         if isinstance(o, VList):
             return VCallable(f"method:list.{attr}", bound=o)
         if isinstance(o, VDict):
@@ -1156,6 +1247,10 @@ class Executor:
             # subscripting `False` raises TypeError
             self.oblige("noraise.subscript_on_False", node, z3.Not(o.isfalse))
             o = o.val
+        if isinstance(o, VList) and isinstance(k, VInt) and getattr(o, "concrete", None) is not None and z3.is_int_value(z3.simplify(k.t)):
+            kk = z3.simplify(k.t).as_long()
+            if -len(o.concrete) <= kk < len(o.concrete):
+                return o.concrete[kk]
         if isinstance(o, VList) and isinstance(k, VInt):
             n = o.len()
             self.oblige("noraise.index", node, z3.And(-n <= k.t, k.t < n))
@@ -1170,6 +1265,7 @@ class Executor:
                 return o.items[kk.as_long()]
         if isinstance(o, VDict) and hasattr(k, "t") and k.t.sort() == o.kt.sort():
             self.oblige("noraise.key", node, self.mem_keys(o.keys, k.t))
+            self.st.assume(self.mem_keys(o.keys, k.t))  # holds on every path that continues (else KeyError)
             return o.et.wrap(z3.Select(o.val, k.t))
         raise Unsupported(f"subscript {o.ty}[{k.ty}]")
 
@@ -1251,8 +1347,18 @@ class Executor:
                 return VSet(z3.SetUnion(a.t, b.t), a.et)
             if isinstance(op, ast.Sub):
                 return VSet(z3.SetDifference(a.t, b.t), a.et)
-        if isinstance(a, VList) and isinstance(b, VList) and isinstance(op, ast.Add):
-            raise Unsupported("list concatenation")
+        if isinstance(a, VITerm) and isinstance(b, VITerm) and isinstance(op, ast.Sub):
+            from . import iterm as IT
+
+            return VITerm(IT.i_sub(a.t, b.t))
+        if isinstance(op, ast.Add) and isinstance(a, (VList, VEmptyList)) and isinstance(b, (VList, VEmptyList)):
+            if isinstance(a, VEmptyList):
+                return b if isinstance(b, VEmptyList) else VList(b.t, b.et)
+            if isinstance(b, VEmptyList):
+                return VList(a.t, a.et)
+            if a.t.sort() != b.t.sort():
+                raise Unsupported("concatenation of lists of different element types")
+            return VList(a.LT.concat(a.t, b.t), a.et)
         raise Unsupported(f"binary op {op.__class__.__name__} on {a.ty},{b.ty}")
 
     def expr_Compare(self, node):
@@ -1343,6 +1449,14 @@ class Executor:
             if isinstance(a, VNone):
                 return z3.BoolVal(True)
             if isinstance(a, (VList, VRef, VInt, VBool, VCnd, VForm, VStr, VDict, VFloat)):
+                return z3.BoolVal(False)
+        if isinstance(a, (VList, VDict, VSet)) and isinstance(b, (VList, VDict, VSet)):
+            # the engine binds one value object per container object it creates or reads from a
+            # field; containers created by one builder carry distinct object ids
+            if a is b:
+                return z3.BoolVal(True)
+            oa, ob = getattr(a, "oid", None), getattr(b, "oid", None)
+            if oa is not None and ob is not None and oa != ob:
                 return z3.BoolVal(False)
         raise Unsupported(f"'is' on {a.ty},{b.ty}")
 
@@ -1466,12 +1580,16 @@ class Executor:
         if sub:
             body = z3.substitute(body, sub)
         st.assume(LT.len(r) == seq.len())
-        st.assume(L.Forall([i], [LT.at(r, i)], z3.Implies(z3.And(0 <= i, i < seq.len()), body), "comprehension"))
+        fa = L.Forall([i], [LT.at(r, i)], z3.Implies(z3.And(0 <= i, i < seq.len()), body), "comprehension")
+        fa.liberal = True
+        st.assume(fa)
         src_i = seq.at(i)
         if hasattr(src_i, "t") and z3.is_app(src_i.t) and src_i.t.num_args() == 2:
             # the same fact, triggered by the source element (so that a witness found in the
             # source yields its image)
-            st.assume(L.Forall([i], [src_i.t], z3.Implies(z3.And(0 <= i, i < seq.len()), body), "comprehension.by.source"))
+            fa = L.Forall([i], [src_i.t], z3.Implies(z3.And(0 <= i, i < seq.len()), body), "comprehension.by.source")
+            fa.liberal = True
+            st.assume(fa)
         return VList(r, et)
 
     # ---- calls ---------------------------------------------------------------------------
@@ -1507,11 +1625,52 @@ class Executor:
             return h(self, args, kwargs, node)
         # 3. repository functions through their contract
         ct = C.get(q)
+        if ct and getattr(ct, "inline", False):
+            return self.inline_call(ct, args, kwargs, node)
         if ct:
             if list(ct.params.keys())[:1] == ["cls"]:
                 args = [VCallable(q.rsplit(".", 1)[0])] + args  # classmethod called on the class
             return self.call_contract(ct, args, kwargs, node)
         raise Unsupported(f"call of {q}: no model and no contract")
+
+    def inline_call(self, ct, args, kwargs, node):
+        """a loop-free helper marked `inline`: its REAL body is executed symbolically on the
+        actual arguments at the call site (the helper keeps its own contract, verified on its
+        own); used where the argument types vary between call sites"""
+        from . import run as _run
+
+        modname, fname = ct.qual.split(":")
+        mod = _run.module_info(modname)
+        fnode = mod.funcs.get(fname)
+        if fnode is None:
+            raise Unsupported(f"shape mismatch: inlined function {fname} not found")
+        for n in ast.walk(fnode):
+            if isinstance(n, (ast.For, ast.While, ast.ListComp, ast.DictComp, ast.Try, ast.With)):
+                raise Unsupported(f"inlined function {fname} is not straight-line code")
+        a = fnode.args
+        names = [x.arg for x in a.posonlyargs + a.args + a.kwonlyargs]
+        if len(args) > len(names) or a.vararg or a.kwarg or a.defaults or a.kw_defaults:
+            raise Unsupported(f"inlined call of {fname}: argument shape")
+        env = dict(zip(names, args))
+        for k, v in kwargs.items():
+            if k not in names or k in env:
+                raise Unsupported(f"inlined call of {fname}: keyword {k}")
+            env[k] = v
+        if set(env) != set(names):
+            raise Unsupported(f"inlined call of {fname}: missing argument")
+        self.called = getattr(self, "called", set())
+        self.called.add(ct.qual + " (inlined)")
+        saved_env, saved_mod, saved_fn = self.st.env, self.mod, self.fn
+        self.st.env, self.mod = env, mod
+        try:
+            try:
+                self.exec_block(fnode.body)
+                res = VNone()
+            except ReturnExc as r:
+                res = r.value
+        finally:
+            self.st.env, self.mod, self.fn = saved_env, saved_mod, saved_fn
+        return res
 
     def call_contract(self, ct: C.Contract, args, kwargs, node):
         """replace the callee by its contract (never its body)"""
@@ -1559,6 +1718,12 @@ class Executor:
         else:
             res = ct.returns.fresh(f"res_{ct.qual.split(':')[1]}", st) if ct.returns is not None else VNone()
         nst = View(self, _with_env(st, bound), old=old_view)
+        if getattr(ct, "ghost_out", None):
+            # ghost outputs of the callee: SOME values satisfy its postcondition (fresh constants);
+            # they stay addressable in the caller as __ghost.<name>
+            nst.ghost = {n: t.fresh(f"ghost_{n}", st) for n, t in ct.ghost_out.items()}
+            for n, gv in nst.ghost.items():
+                st.env[f"__ghost.{n}"] = gv
         st.assume(ct.ensures(nst, res))
         return res
 
